@@ -376,3 +376,166 @@ def run_e(prog, res, floor=2, units=("simplify.c", "vm.c", "eval.c")):
                                 "that binds it (%s): an assigned variable of an outer lambda is taken for immutable and is "
                                 "replaced by a snapshot / left unboxed" % (fn.name, how, have, want), unit=fn.unit.display))
     return stat
+
+
+# ------------------------------------------------------------------ C09.f
+def run_f(prog, res, floor=1, units=("simplify.c",)):
+    """A literal node is not the value it wraps.  The analyzer wraps every quoted datum in a Lit node (a heap
+    object, never #f); where the simplifier decides a branch from a constant test, the variable holding the
+    simplified test (a result of the recursive `simplify` call) is a Lit node *or* an immediate.  A truth test
+    of that variable itself (`v == SEXP_FALSE`: sexp_not / sexp_truep, directly or as an arm of `c ? x : v`)
+    is meaningful only where the Lit case is excluded: every path from the `v = simplify(...)` that defines it
+    to the place where v itself is truth-tested passes the false edge of a `sexp_litp(v)` test - otherwise
+    `(if '#f a b)` folds to `a`."""
+    import tables
+    from cfg import elem_positions, enclosing_elem, reach_without
+    stat = res.stat("C09.f", "truth tests of a simplified sub-AST that may be a literal node are confined to where the literal case "
+                    "is excluded", floor=floor)
+    en = dict(tables.enum_values(prog, const_prefix="SEXP_LIT"))
+    LIT = en.get("SEXP_LIT")
+    if LIT is None:
+        raise AnalysisBroken("anchor vanished: SEXP_LIT")
+    FALSE = 0x3e
+
+    def var_of(fn, n):
+        n = fn.strip(n)
+        return fn.nodes[n].get("d") if fn.nodes[n]["k"] == "ref" else None
+
+    def tag_test(fn, n):
+        """v if n is `v->tag == SEXP_LIT`"""
+        n = fn.strip(n)
+        nd = fn.nodes[n]
+        if nd["k"] == "bin" and nd["o"] == "==":
+            for a, b in ((nd["c"][0], nd["c"][1]), (nd["c"][1], nd["c"][0])):
+                if fn.const_val(b) == LIT:
+                    a0 = fn.strip(a)
+                    if fn.nodes[a0]["k"] == "mem" and fn.nodes[a0].get("o") == "tag":
+                        root, path = fn.mempath(a0)
+                        if path == ["tag"]:
+                            return var_of(fn, root)
+        return None
+
+    def ptr_test(fn, n):
+        """v if n is `(v & 3) == 0`"""
+        n = fn.strip(n)
+        nd = fn.nodes[n]
+        if nd["k"] == "bin" and nd["o"] == "==" and fn.const_val(nd["c"][1]) == 0:
+            a = fn.strip(nd["c"][0])
+            if fn.nodes[a]["k"] == "bin" and fn.nodes[a]["o"] == "&" and fn.const_val(fn.nodes[a]["c"][1]) == 3:
+                return var_of(fn, fn.nodes[a]["c"][0])
+        return None
+
+    def litp_test(fn, n):
+        """v if n is exactly the expansion of sexp_litp(v): pointer test && tag test"""
+        n = fn.strip(n)
+        nd = fn.nodes[n]
+        if nd["k"] == "bin" and nd["o"] == "&&":
+            return tag_test(fn, nd["c"][1])
+        return tag_test(fn, n)
+
+    def tested_vars(fn, n):
+        """variables whose own value is compared with #f by the comparison operand n"""
+        n = fn.strip(n)
+        nd = fn.nodes[n]
+        if nd["k"] == "ref" and "d" in nd:
+            return [(nd["d"], n)]
+        if nd["k"] in ("cond", "ternary", "?:") or (nd["k"] == "tern"):
+            out = []
+            for c in nd["c"][1:]:
+                out.extend(tested_vars(fn, c))
+            return out
+        return []
+    for fn in prog.all_funcs():
+        if fn.unit.name not in units or not fn.blocks:
+            continue
+        excl = {}          # var -> kill positions (entry of the false arm of a sexp_litp(v) test)
+        # the CFG splits && / ||: a block ends in one leaf test.  A block is an "excluded" region for v when every
+        # edge into it is the false edge of `v->tag == SEXP_LIT` or of the pointer test `(v & 3) == 0` of v
+        leaf = {}
+        for b in fn.blocks.values():
+            if len(b.succs) == 2 and b.elems:
+                t = b.elems[-1]
+                v = tag_test(fn, t) if tag_test(fn, t) is not None else ptr_test(fn, t)
+                if v is not None:
+                    leaf[b.id] = (v, tag_test(fn, t) is not None)
+        for q, (v, _is_tag) in leaf.items():
+            f = fn.blocks[q].succs[1]
+            if f is not None and f >= 0 and fn.blocks[q].succs[0] != f:
+                excl.setdefault(v, set()).add((q, f))       # false edge of a leaf of sexp_litp(v): v is not a literal node
+
+        def reaches(src, dst, kills, cut):
+            """a path from right after position src to position dst that executes no position in kills and takes no edge in cut"""
+            kb = {}
+            for (b, i) in kills:
+                kb.setdefault(b, []).append(i)
+
+            def first_kill_after(b, i):
+                ks = [k for k in kb.get(b, ()) if k > i]
+                return min(ks) if ks else None
+            (sb, si), (db, di) = src, dst
+            k = first_kill_after(sb, si)
+            if sb == db and si < di and (k is None or k >= di):
+                return True
+            if k is not None:
+                return False
+            seen, st = set(), [(sb, x) for x in fn.blocks[sb].succs if x is not None and x >= 0]
+            while st:
+                a, b = st.pop()
+                if (a, b) in cut or b in seen:
+                    continue
+                seen.add(b)
+                k = first_kill_after(b, -1)
+                if b == db and (k is None or k >= di):
+                    return True
+                if k is not None:
+                    continue
+                st.extend((b, x) for x in fn.blocks[b].succs if x is not None and x >= 0)
+            return False
+        pos = elem_positions(fn)
+        srcs, others = {}, {}
+        for i, nd in enumerate(fn.nodes):
+            if nd["k"] == "bin" and nd["o"] == "=":
+                v = var_of(fn, nd["c"][0])
+                if v is None:
+                    continue
+                r = fn.strip(nd["c"][1])
+                e = enclosing_elem(fn, i, pos)
+                if e is None:
+                    continue
+                if fn.nodes[r]["k"] == "call" and fn.nodes[r].get("o") == fn.name:
+                    srcs.setdefault(v, []).append((i, e))
+                else:
+                    others.setdefault(v, set()).add(e)
+        if not srcs:
+            continue
+        for i, nd in enumerate(fn.nodes):
+            if nd["k"] != "bin" or nd["o"] not in ("==", "!="):
+                continue
+            uses = []
+            for a, b in ((nd["c"][0], nd["c"][1]), (nd["c"][1], nd["c"][0])):
+                if fn.const_val(b) == FALSE:
+                    uses = [(v, n) for (v, n) in tested_vars(fn, a) if v in srcs]
+            for (v, n) in uses:
+                p = enclosing_elem(fn, n, pos) or enclosing_elem(fn, i, pos)
+                if p is None:
+                    continue
+                stat.sites += 1
+                stat.obligations += 1
+                bad = None
+                for (si, se) in srcs[v]:
+                    kills = others.get(v, set()) | {e for (_j, e) in srcs[v] if e != se}
+                    if reaches(se, p, kills, excl.get(v, set())):
+                        bad = si
+                        break
+                if bad is None:
+                    stat.discharged += 1
+                    stat.sample({"function": fn.name, "variable": fn.vars[v]["n"], "truth_test": fn.where(i),
+                                 "literal_tests_excluding": len(excl.get(v, ()))})
+                else:
+                    res.add(Finding("C09", "C09.f.truth-test-of-literal-node", fn.name, "truth test of %s" % fn.vars[v]["n"], fn.where(i),
+                                    "%s compares `%s` itself with #f, and a path from `%s` (%s) arrives there without having excluded "
+                                    "that it is a literal node (false edge of a sexp_litp test): a Lit node is a heap object and never "
+                                    "#f, so a quoted false constant - `(if '#f a b)`, or a never-assigned `(let ((flag '#f)) (if flag a "
+                                    "b))` after substitution - is folded to the wrong branch; the wrapped value (sexp_lit_value) is what "
+                                    "must be tested" % (fn.name, fn.vars[v]["n"], fn.txt(bad)[:50], fn.where(bad)), unit=fn.unit.display))
+    return stat
